@@ -60,7 +60,7 @@ ASSUMPTIONS = {
             "cache_only=True together with a truthy overwrite refuses every query (accepted)",
             "restarts are clean (no crash) in this property"],
     "C15": ["durability model is process death with the OS surviving: completed system calls are durable, fsync and power loss are out of scope",
-            "writes are write-through in the simulator, so every byte prefix of the written data is a reachable on-disk state (superset of any flush policy)",
+            "two flush policies are simulated, chosen per scenario: write-through (every write() is a syscall) and buffered (like io.BufferedWriter: data reaches the disk at flush/close or beyond 8 KiB; a killed process loses its buffer); every byte prefix of every syscall is a crash point",
             "a failure of the recovering process only counts if it repeats for three successive fresh processes",
             "sampled cross-check: the same crash executed with a real os._exit(137) in a forked child yields byte-identical directory contents"],
 }
@@ -611,6 +611,7 @@ def gen_case_c15(seed, tier):
     return {"seed": seed, "prop": "C15", "scenario": scenario, "cfg": cfg,
             "target": {"inputs": base[0], "output": base[1], "size_dict": base[2], "why": "target"},
             "others": others, "byte_fraction": frac, "byte_seed": sw.randrange(2 ** 31),
+            "flush": sw.choice(["through", "buffered"]),
             "crosscheck": sw.random() < (0.5 if tier == "thorough" else 0.25),
             "only_points": None}
 
@@ -638,6 +639,7 @@ def _fidelity_view(snap):
 
 
 def _writer(ctg, case, directory, crash_at, exit_mode=False, seed_tag="writer"):
+    buffered = case.get("flush") == "buffered"
     """The storing process. Returns (fs, result or None, crashed)."""
     scen = case["scenario"]
     cfg = dict(case["cfg"])
@@ -647,7 +649,7 @@ def _writer(ctg, case, directory, crash_at, exit_mode=False, seed_tag="writer"):
         cfg["overwrite"] = "improved"
         cfg["max_repeats"] = 4
         cfg["opt_seed"] = cfg["opt_seed"] + 1
-    fsim = simfs.SimFS(os.path.dirname(directory), crash_at=crash_at, exit_mode=exit_mode)
+    fsim = simfs.SimFS(os.path.dirname(directory), crash_at=crash_at, exit_mode=exit_mode, buffered=buffered)
     res = None
     crashed = False
     with simfs.activate(fsim):
@@ -667,7 +669,7 @@ def _recover(ctg, case, directory, attempt, crash_at=None, cache_only=False, spl
     cfg["cache_only"] = cache_only
     if split is not None:
         cfg["directory_split"] = split
-    fsim = simfs.SimFS(os.path.dirname(directory), crash_at=crash_at)
+    fsim = simfs.SimFS(os.path.dirname(directory), crash_at=crash_at, buffered=case.get("flush") == "buffered")
     out = {"raised": None, "path": None, "sliced": None, "searched": 0, "crashed": False, "why": None}
     with simfs.activate(fsim), SearchCounter() as sc:
         try:
@@ -800,7 +802,7 @@ def run_case_c15(case):
                     r0 = _recover(ctg, case, directory, 0, crash_at=None)
                     # determine how many mutating ops that recovery did, then crash in the middle of it
                     simfs.restore(scratch, after_crash)
-                    fsr = simfs.SimFS(os.path.dirname(directory))
+                    fsr = simfs.SimFS(os.path.dirname(directory), buffered=case.get("flush") == "buffered")
                     with simfs.activate(fsr):
                         try:
                             prng.reseed_globals(prng.H(case["seed"], "recover", 0))
@@ -858,7 +860,7 @@ def run_case_c15(case):
                     cfg2 = dict(case["cfg"])
                     cfg2["cache_only"] = True
                     cfg2["directory_split"] = "auto"
-                    fsx = simfs.SimFS(scratch)
+                    fsx = simfs.SimFS(scratch, buffered=case.get("flush") == "buffered")
                     with simfs.activate(fsx):
                         try:
                             o3 = make_optimizer(ctg, cfg2, directory)
@@ -872,13 +874,14 @@ def run_case_c15(case):
                     if violations:
                         break
                 bucket = "na" if okind != "write" else ("0" if b == 0 else ("full" if b == ops[k][2] else ("lt16" if b < 16 else "mid")))
-                states.add(prng.H(scen, okind, bucket, outcome, kind))
+                states.add(prng.H(scen, okind, bucket, outcome, kind, case.get("flush")))
                 log.add("point", k, b, okind, outcome)
     finally:
         shutil.rmtree(scratch, ignore_errors=True)
     counters["crash_points"] += npoints
     counters["crash_points_enumerated"] += enumerated
     counters["scenario:" + scen] += 1
+    counters["flush:" + case.get("flush", "through")] += 1
     log.add("violations", [(v["oracle"], v["detail"]) for v in violations])
     sample = {"scenario": scen, "kind": kind, "layout_split": case["cfg"]["directory_split"],
               "writer_ops": _anon_ops(ops) if "ops" in dir() else None,
